@@ -11,7 +11,7 @@ import itertools
 
 from mc.engine.core import Collector, Result, Violation
 
-BOUNDS = {"quick": dict(nmax=6, steps=(None, 1, 2, 3)), "thorough": dict(nmax=14, steps=(None, 1, 2, 3, 5, 7))}
+BOUNDS = {"quick": dict(nmax=11, steps=(None, 1, 2, 3)), "thorough": dict(nmax=14, steps=(None, 1, 2, 3, 5, 7))}
 
 
 def _mk_handle(n):
